@@ -487,13 +487,15 @@ func (f Index) Last(prefix []byte) (i Item, err error) {
 	// next key if the key that it seeks to is not found
 	// and by getting the previous key, the last one for the
 	// actual prefix is found
-	nextPrefix := incByteSlice(prefix)
-	l := len(prefix)
+	// the increment is taken over the index prefix too, so that an empty or
+	// all-0xff key prefix still ends at the last key of this index and not at
+	// the last key of the whole database
+	nextPrefix := bytesIncrement(f.withPrefix(prefix))
 
-	if l > 0 && nextPrefix != nil {
+	if nextPrefix != nil {
 		it.Seek(driver.Key{
 			Prefix: indexKeyPrefixLength,
-			Data:   f.withPrefix(nextPrefix),
+			Data:   nextPrefix,
 		})
 		it.Prev()
 	} else {
